@@ -40,6 +40,15 @@ EXC = {"ValueError": ValueError, "KeyError": KeyError, "RuntimeError": RuntimeEr
        "LookupError": LookupError}
 
 
+EXC_AS_VALUE = HErr("carried as a value, not a failure")
+
+
+def rv(v):
+    """JSON programs carry a token for the one value that is an exception instance: an event may SUCCEED with it (a process
+    returning a caught exception, an error object travelling through a store) - that is not a failure"""
+    return EXC_AS_VALUE if v == "@exc" else v
+
+
 def mkexc(spec):
     return EXC[spec[0]](*spec[1])
 
@@ -423,9 +432,18 @@ class Interp:
         self.finished = False
         self.n_timeouts = 0
         h = self.h
+        shared_to = program.get("shared_timeouts") or []
         for k in range(program.get("nev", 0)):
-            ev = env.event()
-            hev = self._reg(ev, f"E{k}", "E")
+            spec = shared_to[k] if k < len(shared_to) else None
+            if spec:
+                # a shared deadline: one Timeout object that several processes (and conditions) wait on
+                ev = env.timeout(spec[0], rv(spec[1]))
+                hev = self._reg(ev, f"E{k}", "E")
+                hev.expect = ("ok", rv(spec[1]))
+                h.bump("shared_timeout")
+            else:
+                ev = env.event()
+                hev = self._reg(ev, f"E{k}", "E")
             self.events.append(hev)
         h.step_hooks.append(self._step_hook)
         for b in program["start"]:
@@ -548,6 +566,7 @@ class Interp:
             op = ins[0]
             if op == "timeout":
                 _, d, v, pol, ipol = ins
+                v = rv(v)
                 t0 = env.now
                 ev = env.timeout(d, v)
                 self.n_timeouts += 1
@@ -574,7 +593,7 @@ class Interp:
                 hev = self._ref_event(k)
                 if hev is None:
                     continue
-                self._trigger(pid, pc, hev, ("ok", v))
+                self._trigger(pid, pc, hev, ("ok", rv(v)))
             elif op == "fail":
                 _, k, spec = ins
                 hev = self._ref_event(k)
@@ -650,7 +669,7 @@ class Interp:
                     continue
                 yield from self._wait(pid, pc, hev, pol, ipol)
             elif op == "return":
-                result = ins[1]
+                result = rv(ins[1])
                 break
             elif op == "raise":
                 raise mkexc(ins[1])
@@ -947,9 +966,9 @@ class Interp:
                 used.add(id(T.hev))
                 return T.hev
             if op == "to":
-                ev = self.env.timeout(t[1], t[2])
+                ev = self.env.timeout(t[1], rv(t[2]))
                 hev = self._reg(ev, f"T{pid}.{pc}.c{len(used)}", "T")
-                hev.expect = ("ok", t[2])
+                hev.expect = ("ok", rv(t[2]))
                 used.add(id(hev))
                 return hev
             if op in ("all", "any"):
